@@ -329,6 +329,65 @@ def controlflow(rng, underflow_p=0.0, symbolic_p=0.0, big_stack_p=0.0):
 
 
 
+def cyclic_types(rng):
+    """Storage accesses whose type evidence is cyclic through a *container*: an element of the array / mapping at slot
+    s receives the value of slot s itself (T = array<T>, T = mapping<K, T>), directly, through a second slot, through
+    two levels of nesting, or the other way round (the slot receives its own element). Returns (code, feats)."""
+    a = evm.Asm()
+    feats = set()
+    slots = rng.sample(range(0, 6), rng.randint(1, 3))
+
+    def spush(s):
+        a.emit(s if s else ("push", 0, 1))
+
+    def element(s, kind):
+        """Leaves the storage key of an element of the container at slot s on the stack."""
+        if kind == "dyn":
+            spush(s)
+            a.emit(0, "MSTORE", 0x20, 0, "SHA3", rng.choice([[4, "CALLDATALOAD"], [0], [1], ["CALLVALUE"]]), "ADD")
+        elif kind == "map":
+            a.emit(rng.choice(["CALLER", [4, "CALLDATALOAD"]]), 0, "MSTORE")
+            spush(s)
+            a.emit(0x20, "MSTORE", 0x40, 0, "SHA3")
+        elif kind == "map-map":
+            a.emit("CALLER", 0, "MSTORE")
+            spush(s)
+            a.emit(0x20, "MSTORE", 0x40, 0, "SHA3", 0x20, "MSTORE", 4, "CALLDATALOAD", 0, "MSTORE", 0x40, 0, "SHA3")
+        elif kind == "map-dyn":
+            a.emit("CALLER", 0, "MSTORE")
+            spush(s)
+            a.emit(0x20, "MSTORE", 0x40, 0, "SHA3", 0, "MSTORE", 0x20, 0, "SHA3", 4, "CALLDATALOAD", "ADD")
+        else:  # dyn-dyn
+            spush(s)
+            a.emit(0, "MSTORE", 0x20, 0, "SHA3", 4, "CALLDATALOAD", "ADD", 0, "MSTORE", 0x20, 0, "SHA3", 36,
+                   "CALLDATALOAD", "ADD")
+    for _ in range(rng.randint(1, 4)):
+        kind = rng.choice(["dyn", "dyn", "map", "map", "map-map", "map-dyn", "dyn-dyn"])
+        s = rng.choice(slots)
+        t = rng.choice(slots)
+        direction = rng.choice(["element<-slot", "slot<-element", "element<-element"])
+        feats.add("cycle:%s:%s%s" % (kind, direction, "" if s == t else ":two-slots"))
+        if direction == "element<-slot":
+            spush(t)
+            a.emit("SLOAD")
+            if rng.random() < 0.3:
+                a.emit(("push", (1 << rng.choice([8, 160])) - 1, None), "AND")
+            element(s, kind)
+            a.emit("SSTORE")
+        elif direction == "slot<-element":
+            element(s, kind)
+            a.emit("SLOAD")
+            spush(t)
+            a.emit("SSTORE")
+        else:
+            element(t, rng.choice(["dyn", "map"]))
+            a.emit("SLOAD")
+            element(s, kind)
+            a.emit("SSTORE")
+    a.emit("STOP")
+    return a.assemble(), feats
+
+
 def shared_fault(rng):
     """Several paths converge on one faulting instruction with *different* operands: a shared JUMP / JUMPI whose
     target differs per path (non-JUMPDEST, out of range, >= 2^32, symbolic, valid), or a shared instruction that
